@@ -371,6 +371,17 @@ def directed_cases(rng, k0):
     for badk in (0, 1):
         out.append({"style": "unreadable-primary-not-last", "A": [dict(f) for f in a], "B": [dict(f) for f in b], "mi": 30, "md": 5.0,
                     "start": -100, "end": 20000, "processes": 1, "bundle": None, "output": "memory", "bad": ["A", badk], "skip": True})
+    # secondary files whose pauses are exactly twice max_interval (the widened coverages of neighbours touch in one point):
+    # every file pair once -- with output to memory and with bundles, where a pair reported twice shows
+    b = [{"c0": 460 * k, "c1": 460 * k + 400,
+          "pts": [[(460 * k + 100) * U + 1, 0.0, k + 0.01, 1001 + 2 * k], [(460 * k + 300) * U + 5, 0.0, k + 0.51, 1002 + 2 * k]]}
+         for k in range(7)]
+    a = [{"c0": 0, "c1": 3200,
+          "pts": [p for k in range(7) for p in ([(460 * k + 101) * U + 3, 0.0, float(k), 1 + 2 * k],
+                                                [(460 * k + 301) * U, 0.0, k + 0.5, 2 + 2 * k])]}]
+    for bundle, procs in ((None, 1), ("primary", 2)):
+        out.append({"style": "pauses-of-twice-max-interval", "A": [dict(f) for f in a], "B": [dict(f) for f in b], "mi": 30, "md": 5.0,
+                    "start": -100, "end": 4000, "processes": procs, "bundle": bundle, "output": "memory"})
     for i, c in enumerate(out):
         c.setdefault("bad", None)
         c.setdefault("skip", False)
